@@ -34,6 +34,10 @@ func (a *act) callValue(site ssa.CallInstruction, c *ssa.CallCommon, fnVal Val, 
 		e.cur.viaReach[k] = append(e.cur.viaReach[k], viaRec{site.Block(), reach})
 	}
 
+	if c.IsInvoke() && len(fnVal.T) >= 1 {
+		// a method call on a nil interface value panics (an obligation under `sweep nil-deref`, assumed otherwise)
+		a.safety("nil-deref", a.exprText(c.Value)+"."+c.Method.Name()+"()", site.Pos(), reach, app(SBool, "distinct", fnVal.T[0], intLit(0)))
+	}
 	if c.IsInvoke() {
 		// statically known dynamic type?
 		if b, ok := fnVal.Ext.(*Boxed); ok && b != nil {
